@@ -1108,7 +1108,8 @@ class Agent(dbus.service.Object):
 
         if ExtensionKey.SENDER_LISTEN in extmap:
             interval_ms = int(extmap[ExtensionKey.SENDER_LISTEN])
-            node_id = extmap.get(ExtensionKey.SENDER_NODEID, '')
+            # values come from the peer, the signal needs text and a 32-bit integer
+            node_id = str(extmap.get(ExtensionKey.SENDER_NODEID, ''))
             self.__logger.info('Sender Listen for %d ms from %s', interval_ms, node_id)
 
             data = cbor2.dumps({
@@ -1124,7 +1125,7 @@ class Agent(dbus.service.Object):
             self._add_tx_item(item, is_transfer=False)
 
             dtntime = DtnTimeField.datetime_to_dtntime(timestamp)
-            self.polling_received(dtntime, interval_ms, node_id, str(conv.peer_address), conv.peer_port)
+            self.polling_received(dtntime, max(min(interval_ms, 2 ** 31 - 1), -2 ** 31), node_id, str(conv.peer_address), conv.peer_port)
 
         if ExtensionKey.TRANSFER in extmap:
             xfer_id, total_len, frag_offset, frag_data = extmap[ExtensionKey.TRANSFER]
